@@ -1358,6 +1358,9 @@ def algorithm_lookup(out: OutputBuffer, alg_names: str) -> int:
     algorithm_names = alg_names.split(",")
     adb = SSH2_KexDB.get_db()
 
+    # GSS key exchanges are stored in the database with a wildcard in place of the mechanism's base64 hash (i.e.: 'gss-gex-sha1-vz8J1E9PzLr8b1K+0remTg==' => 'gss-gex-sha1-*'); look them up the way a scan rates them.
+    algorithm_names = ["%s-*" % alg_name[0:alg_name.rindex('-')] if alg_name.startswith('gss-') and not alg_name.endswith('-*') else alg_name for alg_name in algorithm_names]
+
     # Use nested dictionary comprehension to iterate an outer dictionary where
     # each key is an alg type that consists of a value (which is itself a
     # dictionary) of alg names. Filter the alg names against the user supplied
